@@ -354,6 +354,16 @@ def _(B, X):
     return B.eq(B.dedup(B.dedup(X)), B.dedup(X))
 
 
+@law("dedup-slice-dedup", "T2", "a:Int b:OptInt X:RS", lambda B, a, b, X: B.dedup(B.slice(a, b, B.dedup(X))), status="assumed, bounded-checked (added for the SQL engine; no Lean proof yet)")
+def _(B, a, b, X):
+    return B.implies(wf(B, a, b), B.eq(B.dedup(B.slice(a, b, B.dedup(X))), B.slice(a, b, B.dedup(X))))
+
+
+@law("proj-chain", "T1", "P:TagSet X:RS Y:RS", lambda B, P, X, Y: [B.proj(P, B.chain(X, Y)), B.chain(B.proj(P, X), B.proj(P, Y))], status="assumed, bounded-checked (added for the SQL engine; no Lean proof yet)")
+def _(B, P, X, Y):
+    return B.implies(B.eq(B.rcols(X), B.rcols(Y)), B.eq(B.proj(P, B.chain(X, Y)), B.chain(B.proj(P, X), B.proj(P, Y))))
+
+
 @law("dedup-filter", "T2", "p:Pred X:RS", lambda B, p, X: [B.dedup(B.filter(p, X)), B.filter(p, B.dedup(X))])
 def _(B, p, X):
     return B.implies(B.subset(B.fv(p), B.rcols(X)), B.eq(B.dedup(B.filter(p, X)), B.filter(p, B.dedup(X))))
